@@ -127,3 +127,7 @@ Definition check_pot (c : list (list float) * gtree * Z * list (Z * list (msurf 
       && list_eqb (pair_eqb Z.eqb entry_eqb) (firstn (List.length news) tb2) news
   | Err _ => false
   end.
+
+(* (j) convert_mcnp_surface on a dictionary entry *)
+Definition check_entry (c : list (msurf float * Z) * res (list (t4surf float * Z))) : bool :=
+  res_eqb coll_eqb (convert_entry FS (fst c)) (snd c).
